@@ -864,7 +864,8 @@ fn ocf_header_schema(bytes: &[u8]) -> Option<String> {
 /// structural tags of the recorded findings, computed from the case line alone (so they are
 /// the same in gen and replay mode):
 ///  * `kf:avro-ocf-header-schema-regenerated` — OCF write whose user-supplied `avro.schema` JSON differs
-///    from the one `AvroOcfFormat::start_stream` regenerates from the Arrow schema (null-second unions, enums);
+///    from the one `AvroOcfFormat::start_stream` regenerates from the Arrow schema (null-second unions, enums,
+///    fixed-backed decimals, which are regenerated as bytes-backed);
 ///    such a file may also make `Reader::read` spin: `kf:avro-reader-trailing-block-bytes-hang`
 ///  * `kf:avro-union-counts-not-reset` — a union column read in more than one batch (rows > batch size 7)
 fn kf_tags(line: &str) -> String {
@@ -888,7 +889,7 @@ fn kf_tags(line: &str) -> String {
     if t[1] != "ocf" && t[1] != "ocfz" {
         return out;
     }
-    let regenerated = has(&top, &|x: &S| matches!(x, S::Opt(false, _) | S::Enum(_)));
+    let regenerated = has(&top, &|x: &S| matches!(x, S::Opt(false, _) | S::Enum(_) | S::Dec(_, _, Some(_))));
     let rows: usize = t[si + 1].split('/').map(|b| if b == "-" { 0 } else { b.split('|').count() }).sum();
     if regenerated {
         out.push_str(" kf:avro-ocf-header-schema-regenerated kf:avro-reader-trailing-block-bytes-hang");
@@ -1278,7 +1279,7 @@ fn gen_value(rng: &mut Rng, s: &S, budget: &mut i64) -> V {
             _ => V::Long(if rng.chance(1, 2) { *rng.pick(&I64B) } else { rng.next_u64() as i64 >> rng.below(64) }),
         },
         S::Uuid => V::Fixed(if rng.chance(1, 4) { vec![*rng.pick(&[0u8, 0xff, 0x0a, 0xa0]); 16] } else { rng.bytes(16) }),
-        S::Duration => V::Dur(*rng.pick(&[0u32, 1, 12, u32::MAX, i32::MAX as u32]), *rng.pick(&[0u32, 1, 31, i32::MAX as u32, u32::MAX]), *rng.pick(&[0u32, 1, 999, 86_400_000, u32::MAX])),
+        S::Duration => V::Dur(*rng.pick(&[0u32, 1, 12, 255, i32::MAX as u32]), *rng.pick(&[0u32, 1, 31, 65536, i32::MAX as u32]), *rng.pick(&[0u32, 1, 999, 86_400_000, u32::MAX])),
         S::Opt(_, i) => {
             if rng.chance(1, 3) { V::None } else { V::Some(Box::new(gen_value(rng, i, budget))) }
         }
